@@ -119,8 +119,16 @@ def respelt_ei(inp, out1):
     return False
 
 
-def part_idem(chk, drv, runner):
+def part_idem(chk, drv, runner, norm_cases=None):
     cases = gen_idem_streams(chk)
+    # the streams of part `normalize` that contain an inline image (EI look-alikes of every class in the data, abbreviated and full keys):
+    # the side condition of ci_normalize_idempotent_images_partial is evaluated on them too
+    if norm_cases:
+        have = {b for _, b in cases}
+        pool = [b for _, b, _ in norm_cases if b"ID" in b and b not in have]
+        pool = sorted(set(pool))
+        chk.rng.shuffle(pool)
+        cases += [("normalize-img", b) for b in pool[:(1500 if chk.tier == "quick" else 20000)]]
     hx = [hexs(b) for _, b in cases]
     first = lambda outs: [(o.split(" ")[0] if len(o.split(" ")) == 3 else None) for o in outs]
     i1 = common.run_lines(drv, ["c16norm " + h for h in hx], shards=4)
